@@ -426,9 +426,11 @@ def format_case(h, root, idx, seed):
     what_cfg = "format in.map out.map %s (document %s)" % (" ".join(repr(a) for a in args[3:]), env["doc"])
     try:
         api_format(os.path.join(d, "in.map"), os.path.join(d, "api.map"), post["api"])
-    except Exception as ex:  # noqa: BLE001
+    except Exception as ex:  # noqa: BLE001     the fixtures are well-formed documents: the API has to read and write them
         shutil.rmtree(d, ignore_errors=True)
-        raise common.MachineryFailure("save(open()) failed on a format fixture: %r" % ex)
+        stage = "write|save" if isinstance(ex, (UnicodeError, OSError)) else "read|open"
+        return [("C20|%s|raised|%s" % (stage, type(ex).__name__), "save(open(IN), OUT) raised %s on document %r: %s" % (
+            type(ex).__name__, env["doc"], str(ex)[:150]), case)], {"rc": rc}
     want = read_bytes(os.path.join(d, "api.map"))
     if rc != post["status"]:
         finds.append(("C20|format|status", "%s: exit status %d; %s" % (what_cfg, rc, err.strip().splitlines()[-1:] or ""), case))
@@ -735,26 +737,76 @@ def split_cli(prints):
     return val, fmt, sch
 
 
-def run_cases(ck, fn, cases, root, seed):
-    with ThreadPoolExecutor(WORKERS) as ex:
-        results = list(ex.map(lambda iv: fn(iv[1], root, iv[0], seed), enumerate(cases)))
-    for h, (finds, info) in zip(cases, results):
-        ck.count()
-        ck.nontrivial(h)
-        for sig, what, case in finds:
-            ck.violation(sig, what, case)
-    return results
+_lark_open = None
+_lark_cache = {}
+
+
+def share_grammar(on):
+    """Every public open/load/loads call builds a Parser, and every Parser compiles the Lark grammar
+    (165 ms, 99% of the call).  With on=True the compiled grammar object returned by Lark.open for the
+    plain option set is shared between Parser objects of this worker process; the code under test
+    runs unchanged above it.  One behaviour in eight runs with on=False."""
+    import lark
+    global _lark_open
+    if _lark_open is None:
+        _lark_open = lark.Lark.__dict__["open"]
+    if not on:
+        lark.Lark.open = _lark_open
+        return
+
+    def cached(cls, grammar_filename, rel_to=None, **options):
+        if set(options) - {"parser"}:
+            return _lark_open.__func__(cls, grammar_filename, rel_to, **options)
+        key = (grammar_filename, rel_to, tuple(sorted(options.items())))
+        if key not in _lark_cache:
+            _lark_cache[key] = _lark_open.__func__(cls, grammar_filename, rel_to, **options)
+        return _lark_cache[key]
+    lark.Lark.open = classmethod(cached)
+
+
+def work(item):
+    """one unit of replay work (worker process)"""
+    kind, payload = item
+    if kind == "api":
+        share_grammar(payload[0] % 8 != 0)
+        try:
+            return api_case(payload)
+        finally:
+            share_grammar(False)
+    h, root, idx, seed = payload
+    return {"validate": validate_case, "format": format_case, "schema": schema_case}[kind](h, root, idx, seed)
+
+
+def prepare_fixtures(val):
+    """verify every kind of validate fixture once, before the workers are forked"""
+    seen = set()
+    for h in val:
+        for kind, nerr in zip(h[0]["kinds"], h[0]["nerr"]):
+            key = (kind["k"], kind["n"])
+            if key in seen:
+                continue
+            seen.add(key)
+            if kind["k"] == "unparseable":
+                for i in range(40):
+                    fixture_text(kind, nerr, random.Random(i))
+            else:
+                fixture_text(kind, nerr, random.Random(0))
 
 
 def run(tier):
+    import time
     ck = common.Check("C20", tier, "model_checking", RULE)
     seed = ck.seed
     quick = tier == "quick"
     rng = random.Random(seed)
     n_api = 200 if quick else 3000
-    import time
     t0 = time.time()
-    res = run_tlc(ck, quick, seed, n_api)
+    vocab.get()
+    with ThreadPoolExecutor(1) as side:         # the document walks (spec/Reader.tla) run next to the Frontend runs
+        fw = side.submit(docs.walks, int(n_api * 1.6), max_steps=25, step_posts=False, seed=seed + 21, tag="c20_walks",
+                         ck=ck, timeout=1800)
+        res = run_tlc(ck, quick, seed, n_api)
+        walks = fw.result()
     t_tlc = time.time() - t0
     val, fmt, sch = split_cli(res["c20_cli"].prints)
     if len(val) < 4000 or len(fmt) < 1600 or len(sch) != 8:
@@ -762,60 +814,63 @@ def run(tier):
     fes = [h for h in res["c20_api_walks"].prints if isinstance(h, list)]
     if len(fes) < n_api * 0.9:
         raise common.MachineryFailure("TLC emitted %d api behaviours, wanted %d" % (len(fes), n_api))
-    walks = docs.walks(int(n_api * 1.6), max_steps=25, step_posts=False, seed=seed + 21, tag="c20_walks", ck=ck, timeout=1800)
     walks = [w for w in walks if has_strings(w)][:len(fes)]
     if len(walks) < len(fes) * 0.8:
         raise common.MachineryFailure("only %d generated documents carry string values" % len(walks))
+    vsel = select_validate(val, 60, rng) if quick else val
+    fsel = select_format(fmt, 24, rng) if quick else fmt
+    prepare_fixtures(vsel)
     root = tempfile.mkdtemp(prefix="verif_c20_")
-    t_walks = time.time() - t0 - t_tlc
+    items = [("api", (j, w, fe, seed, root)) for j, (w, fe) in enumerate(zip(walks, fes))]
+    n_docs = len(items)
+    items += [("validate", (h, root, i, seed)) for i, h in enumerate(vsel)]
+    items += [("format", (h, root, i, seed)) for i, h in enumerate(fsel)]
+    items += [("schema", (h, root, i, seed)) for i, h in enumerate(sch)]
     try:
-        # api behaviours on generated documents (worker processes: every call builds its own Parser)
-        jobs = [(j, w, fe, seed, root) for j, (w, fe) in enumerate(zip(walks, fes))]
         with ProcessPoolExecutor(WORKERS, mp_context=multiprocessing.get_context("fork")) as ex:
-            out = list(ex.map(api_case, jobs, chunksize=4))
-        skipped = {}
-        kinds_seen = set()
-        calls = 0
-        for (j, w, fe, _, _), (finds, info) in zip(jobs, out):
+            out = list(ex.map(work, items, chunksize=2))
+    finally:
+        shutil.rmtree(root, ignore_errors=True)
+    t_replay = time.time() - t0 - t_tlc
+    skipped = {}
+    kinds_seen = set()
+    calls = 0
+    for (kind, payload), (finds, info) in zip(items, out):
+        if kind == "api":
             if info["skipped"]:
                 skipped[info["skipped"]] = skipped.get(info["skipped"], 0) + 1
                 continue
-            ck.count()
-            ck.nontrivial([w[:-1], fe[0]])
             calls += info["calls"]
             kinds_seen.update(info["present"])
-            for sig, what, case in finds:
-                ck.violation(sig, what, case)
-        if sum(skipped.values()) > 0.2 * len(jobs):
-            raise common.MachineryFailure("too many generated documents skipped: %s" % skipped)
-        for k, n in skipped.items():
-            ck.notes.append("%d generated documents left to other properties: %s" % (n, k))
-        missing = set(POOL) - kinds_seen
-        if missing and not quick:
-            raise common.MachineryFailure("string kinds never exercised: %s" % sorted(missing))
-        ck.sample({"api_behaviour": [a["a"] + ("/" + a["of"] if "of" in a else "") for a in fes[0]], "kinds": fes[0][0]["kinds"], "layout": fes[0][0]["lay"]})
-        t_api = time.time() - t0 - t_tlc - t_walks
-        # command line: validate, format, schema
-        vsel = select_validate(val, 60, rng) if quick else val
-        fsel = select_format(fmt, 24, rng) if quick else fmt
-        vres = run_cases(ck, validate_case, vsel, root, seed)
-        fres = run_cases(ck, format_case, fsel, root, seed)
-        sres = run_cases(ck, schema_case, sch, root, seed)
-        ck.sample({"validate": vsel[0]})
-        ck.sample({"format": fsel[0]})
-        if len({r[1]["bytes"] for r in sres}) < 3:
-            raise common.MachineryFailure("exported schemas do not depend on the version")
-    finally:
-        shutil.rmtree(root, ignore_errors=True)
-    ck.notes.append("wall: TLC %.1fs, document walks %.1fs, api replay %.1fs, command-line replay %.1fs" % (
-        t_tlc, t_walks, t_api, time.time() - t0 - t_tlc - t_walks - t_api))
+            ck.nontrivial([payload[1][:-1], payload[2][0]])
+        else:
+            ck.nontrivial(payload[0])
+        ck.count()
+        for sig, what, case in finds:
+            ck.violation(sig, what, case)
+    if sum(skipped.values()) > 0.2 * n_docs:
+        raise common.MachineryFailure("too many generated documents skipped: %s" % skipped)
+    for k, n in skipped.items():
+        ck.notes.append("%d generated documents left to other properties: %s" % (n, k))
+    missing = set(POOL) - kinds_seen
+    if missing and not quick:
+        raise common.MachineryFailure("string kinds never exercised: %s" % sorted(missing))
+    if len({info["bytes"] for (kind, _), (_, info) in zip(items, out) if kind == "schema"}) < 3:
+        raise common.MachineryFailure("exported schemas do not depend on the version")
+    ck.sample({"api_behaviour": [a["a"] + ("/" + a["of"] if "of" in a else "") for a in fes[0]], "kinds": fes[0][0]["kinds"],
+               "layout": fes[0][0]["lay"]})
+    ck.sample({"validate": vsel[0]})
+    ck.sample({"format": fsel[0]})
+    ck.notes.append("wall: TLC (Frontend runs and document walks side by side) %.1fs, replay %.1fs" % (t_tlc, t_replay))
+    ck.notes.append("the compiled Lark grammar is shared between the Parser objects the public functions build in 7 of 8 "
+                    "api behaviours (see share_grammar); the command-line subprocesses and the format comparison run unshared")
     labels = {}
     for h in vsel:
         labels[validate_label(h)] = labels.get(validate_label(h), 0) + 1
     return ck.finish(exhaustive=False, coverage_extra={
         "validate_configurations": len(vsel), "validate_configurations_in_model": len(val), "validate_classes": labels,
         "format_configurations": len(fsel), "format_configurations_in_model": len(fmt),
-        "schema_configurations": len(sch), "api_documents": len(jobs) - sum(skipped.values()), "api_calls": calls,
+        "schema_configurations": len(sch), "api_documents": n_docs - sum(skipped.values()), "api_calls": calls,
         "string_kinds_exercised": sorted(kinds_seen), "negative_models_rejected": [n for n, _, _ in NEGATIVES]})
 
 
